@@ -112,7 +112,7 @@ class C02(Spec):
                         sk.append(r2)
                 elif r < 0.9:
                     r2 = fresh()
-                    h.append("anotb %d %d %d %d %d" % (rng.choice(sk), rng.choice(sk), r2, rng.randrange(2), seed))
+                    h.append("anotb %d %d %d %d %d%s" % (rng.choice(sk), rng.choice(sk), r2, rng.randrange(2), seed, " mv" if rng.random() < 0.3 else ""))
                     if rng.random() < 0.5:
                         sk.append(r2)
                 elif r < 0.96:
